@@ -1,4 +1,5 @@
 import FloVerif.Driver.C05
+import FloVerif.Driver.C15
 import FloVerif.Driver.C19
 import FloVerif.Driver.C01
 import FloVerif.Driver.C13
@@ -15,6 +16,7 @@ open Driver
 def dispatch (prop op stream : String) (ins outs : List String) : List C05.Out :=
   match prop with
   | "C05" => C05.handle op stream ins outs
+  | "C15" => C15.handle op ins outs
   | "C19" => C19.handle op ins outs
   | "C13" => C13.handle op ins outs
   | "C06" => C06.handle op stream ins outs
